@@ -1,0 +1,8 @@
+//go:build !verif
+
+// Package verifhook provides named observation points for external verification
+// harnesses. Without the "verif" build tag every hook is a no-op.
+package verifhook
+
+// Hit is a no-op unless built with the "verif" build tag.
+func Hit(string) {}
